@@ -111,7 +111,7 @@ def tree_docs(ctx):
     docs = []
     per = {}
     for name, docmode in runs:
-        r = vlib.tlc_mc(ctx, 'HtmlMachine', 'HtmlMachine_%s.cfg' % name, workers=8, heap='8g' if not quick else '4g',
+        r = vlib.tlc_mc(ctx, 'HtmlMachine', 'HtmlMachine_%s.cfg' % name, workers=8, heap='4g',
                         timeout=3000)
         got = gen_lines(r['out'])
         per[name] = dict(states=r['distinct'], documents=len(got), wall_s=round(r['wall'], 1))
@@ -292,6 +292,147 @@ def attr_cases(ctx, vals):
     return out
 
 
+# Conforming (element, attribute, values) combinations that reach the attribute rules of the minifier:
+# documented defaults, boolean attributes, empty attributes, keyword case, URL / MIME / event handler /
+# style values, the meta rewrites.  '%s' in the element text is replaced by name=value in each quoting.
+ATTR_RULES = [
+    ('<form %s><input name=q></form>', 'method', ['get', 'GET', 'post', 'dialog', ' get ']),
+    ('<form %s><input name=q></form>', 'enctype', ['application/x-www-form-urlencoded', 'multipart/form-data', 'text/plain',
+                                                   'Application/X-WWW-Form-Urlencoded']),
+    ('<form %s><input name=q></form>', 'action', ['', '/x', ' /x ', 'HTTP://e.x/A?b=c&amp;d', 'https://e.x/', 'Https://E.x/']),
+    ('<form %s><input name=q></form>', 'name', ['', 'f']),
+    ('<input %s>', 'type', ['text', 'TEXT', 'Text', 'checkbox', 'radio', 'submit', 'hidden', 'search', 'email']),
+    ('<input type=text %s>', 'value', ['', 'x', ' x ', 'on', 'a  b']),
+    ('<input type=hidden %s>', 'value', ['', 'x']),
+    ('<input type=search %s>', 'value', ['', 'x']),
+    ('<input type=radio %s>', 'value', ['on', 'x', 'off']),
+    ('<input type=checkbox %s>', 'value', ['on', 'x']),
+    ('<input type=checkbox %s>', 'checked', ['', 'checked', 'CHECKED']),
+    ('<input %s>', 'disabled', ['', 'disabled']),
+    ('<input %s>', 'name', ['', 'n', 'a b']),
+    ('<input %s>', 'placeholder', ['', ' a  b ']),
+    ('<input type=email %s>', 'multiple', ['', 'multiple']),
+    ('<input %s>', 'maxlength', ['10', ' 10 ']),
+    ('<input %s>', 'autocomplete', ['on', 'off', 'shipping  postal-code', ' name ']),
+    ('<input type=image alt=x %s>', 'formmethod', ['get', 'post']),
+    ('<button %s>x</button>', 'type', ['submit', 'SUBMIT', 'button', 'reset']),
+    ('<button %s>x</button>', 'formenctype', ['application/x-www-form-urlencoded', 'text/plain']),
+    ('<table><tbody><tr><td %s>x</td></tr></tbody></table>', 'colspan', ['1', '2', ' 1 ', '01']),
+    ('<table><tbody><tr><td %s>x</td></tr></tbody></table>', 'rowspan', ['1', '0', '3']),
+    ('<table><tbody><tr><td %s>x</td></tr></tbody></table>', 'headers', ['a  b', ' a ']),
+    ('<table><colgroup><col %s></colgroup><tbody><tr><td>x</td></tr></tbody></table>', 'span', ['1', '2']),
+    ('<table><colgroup %s><col></colgroup><tbody><tr><td>x</td></tr></tbody></table>', 'class', ['', 'c']),
+    ('<map name=m><area %s coords="0,0, 1,1" href=x alt=a></map>', 'shape', ['rect', 'RECT', 'circle', 'default']),
+    ('<style %s>a{}</style>', 'media', ['all', 'ALL', 'print', 'screen and (min-width: 1px)', ' all ']),
+    ('<style %s>a{}</style>', 'type', ['text/css', 'TEXT/CSS', 'text/css; charset=utf-8']),
+    ('<link rel=stylesheet href=x %s>', 'type', ['text/css', 'Text/Css', 'text/x-other']),
+    ('<link href=x %s>', 'rel', ['stylesheet', ' stylesheet  preload ', 'ICON']),
+    ('<script %s>x</script>', 'type', ['text/javascript', 'application/javascript', 'TEXT/JavaScript', 'module', 'text/plain',
+                                       'application/ld+json', 'text/javascript; charset=utf-8', 'application/ecmascript', '']),
+    ('<script src=x %s></script>', 'charset', ['utf-8', 'UTF-8']),
+    ('<script src=x %s></script>', 'async', ['', 'async']),
+    ('<script %s></script>', 'src', ['x', ' x ', 'HTTPS://e.x/a.js', 'http://e.x/']),
+    ('<a %s>x</a>', 'href', ['x', ' x ', 'HTTP://e.x', 'Http://E.x/A', 'https://e.x/?a=1&amp;b=2', 'mailto:a@b.c', '#', '', 'javascript:f()',
+                             'a b', 'http:', 'https:x']),
+    ('<a id=x %s>x</a>', 'name', ['x', 'y', 'X']),
+    ('<a href=x %s>x</a>', 'type', ['text/html', 'Text/HTML; Charset=UTF-8']),
+    ('<a href=x %s>x</a>', 'target', ['_blank', 'f']),
+    ('<a href=x %s>x</a>', 'rel', ['noopener', ' noopener  noreferrer ']),
+    ('<a href=x %s>x</a>', 'hreflang', ['en', 'EN-us']),
+    ('<img src=x %s>', 'alt', ['', ' a  b ', 'a']),
+    ('<img alt=a %s>', 'src', ['x', ' x.png ', 'HTTP://e.x/i.png']),
+    ('<img src=x alt=a %s>', 'srcset', ['a.png 1x,  b.png 2x', ' a.png 100w ']),
+    ('<img src=x alt=a %s>', 'width', ['10', ' 10 ']),
+    ('<img src=x alt=a %s>', 'loading', ['lazy', 'LAZY']),
+    ('<img src=x alt=a %s>', 'ismap', ['', 'ismap']),
+    ('<select %s><option>a</option></select>', 'multiple', ['', 'multiple']),
+    ('<select><option %s>a</option></select>', 'selected', ['', 'selected']),
+    ('<select><option %s>a</option></select>', 'value', ['', 'x', ' x ']),
+    ('<select><optgroup %s><option>a</option></optgroup></select>', 'label', ['', ' a  b ']),
+    ('<textarea %s>x</textarea>', 'readonly', ['', 'readonly']),
+    ('<textarea %s>x</textarea>', 'wrap', ['soft', 'HARD']),
+    ('<details %s><summary>s</summary>x</details>', 'open', ['', 'open']),
+    ('<ol %s><li>a</li></ol>', 'reversed', ['', 'reversed']),
+    ('<ol %s><li>a</li></ol>', 'type', ['1', 'a', 'A', 'i', 'I']),
+    ('<ol %s><li>a</li></ol>', 'start', ['1', ' 3 ']),
+    ('<div %s>x</div>', 'class', ['', 'a', ' a  b ', 'A a']),
+    ('<div %s>x</div>', 'id', ['', 'a', 'A b']),
+    ('<div %s>x</div>', 'dir', ['', 'ltr', 'RTL', 'auto']),
+    ('<div %s>x</div>', 'style', ['', 'color:red', ' color : red ; ', 'background:url("a b")']),
+    ('<div %s>x</div>', 'title', ['', ' a  b ', 'a']),
+    ('<div %s>x</div>', 'lang', ['en', ' en ']),
+    ('<div %s>x</div>', 'hidden', ['', 'hidden', 'until-found']),
+    ('<div %s>x</div>', 'onclick', ['', 'f()', ' f() ', 'javascript:f()', 'JavaScript: f()', 'a=" b  c "']),
+    ('<div %s>x</div>', 'tabindex', ['0', '-1', ' 1 ']),
+    ('<div %s>x</div>', 'itemscope', ['', 'itemscope']),
+    ('<div %s>x</div>', 'data-x', ['', ' a  b ', 'get', 'on']),
+    ('<div %s>x</div>', 'contenteditable', ['', 'true', 'FALSE']),
+    ('<div %s>x</div>', 'draggable', ['true', 'FALSE']),
+    ('<div %s>x</div>', 'accesskey', ['a', ' a  b ']),
+    ('<label %s>x</label>', 'for', ['a', ' a ']),
+    ('<my-el %s>x</my-el>', 'class', ['', ' a  b ']),
+    ('<my-el %s>x</my-el>', 'value', ['', 'on', ' x ']),
+    ('<my-el %s>x</my-el>', 'method', ['get', 'GET']),
+    ('<my-el %s>x</my-el>', 'name', ['', 'n']),
+    ('<my-el %s>x</my-el>', 'itemscope', ['', 'x']),
+    ('<video %s></video>', 'controls', ['', 'controls']),
+    ('<video %s></video>', 'poster', ['x', ' x ']),
+    ('<video %s></video>', 'preload', ['none', 'METADATA']),
+    ('<object %s></object>', 'data', ['x', ' x ']),
+    ('<object data=x %s></object>', 'type', ['image/png', 'Image/PNG']),
+    ('<iframe %s></iframe>', 'sandbox', ['', 'allow-scripts  allow-forms']),
+    ('<iframe %s></iframe>', 'allowfullscreen', ['', 'true']),
+    ('<blockquote %s>x</blockquote>', 'cite', ['x', ' HTTP://e.x/q ']),
+    ('<time %s>x</time>', 'datetime', ['2011-11-18 14:54', ' 2011-11-18 ']),
+    ('<meter %s></meter>', 'value', ['0.5', '1']),
+    ('<track %s src=x>', 'default', ['', 'default']),
+    ('<source %s src=x>', 'type', ['video/mp4', 'Video/MP4; codecs="avc1.42E01E, mp4a.40.2"']),
+]
+META_DOCS = [
+    '<meta http-equiv="content-type" content="text/html; charset=utf-8">', '<meta http-equiv="Content-Type" content="text/html; charset=UTF-8">',
+    '<meta http-equiv=" content-type " content=" text/html;  charset=utf-8 ">', '<meta http-equiv="content-type" content="text/html; charset=iso-8859-1">',
+    '<meta http-equiv="content-type" content="text/html; charset=utf-8" charset=utf-8>', '<meta charset="UTF-8">', '<meta charset=utf-8>',
+    '<meta http-equiv="refresh" content="5; url=http://e.x/">', '<meta http-equiv="Content-Security-Policy" content="default-src \'self\';  img-src *">',
+    '<meta name="keywords" content="a, b,  c ,d">', '<meta name="Keywords" content="a b, c">',
+    '<meta name="viewport" content="width=device-width, initial-scale=1.0">', '<meta name="viewport" content="width = 996 , maximum-scale=1000">',
+    '<meta name="viewport" content="width=0.10,initial-scale=01.50">', '<meta name="description" content="  a,  b  ">',
+    '<meta name="author" content="">', '<meta property="og:title" content=" a  b ">', '<meta itemprop=x content="a, b">',
+]
+
+
+def quotings(v):
+    v = v.encode()
+    out = []
+    if b'"' not in v:
+        out.append(b'"' + v + b'"')
+    if b"'" not in v:
+        out.append(b"'" + v + b"'")
+    if v and not (set(v) & NEEDQ):
+        out.append(v)
+    return out
+
+
+def attr_rule_cases(ctx):
+    out = []
+    optsets = [0, 4, 32] if ctx.quick() else [0, 4, 32, 36] + PAIRWISE8[1:]
+    for tmpl_, name, values in ATTR_RULES:
+        for v in values:
+            for q in quotings(v):
+                doc = tmpl_.encode().replace(b'%s', name.encode() + b'=' + q)
+                for o in optsets:
+                    out.append(mk(doc, o, True, 0, origin='attr-rule'))
+            if v == '':
+                doc = tmpl_.encode().replace(b'%s', name.encode())
+                for o in optsets:
+                    out.append(mk(doc, o, True, 0, origin='attr-rule'))
+    for d in META_DOCS:
+        for o in optsets:
+            out.append(mk(DOCTYPE + b'<html><head><title>t</title>' + d.encode() + b'</head><body>x</body></html>', o, False, 0,
+                          origin='attr-rule'))
+            out.append(mk(d, o, True, 0, origin='attr-rule'))
+    return out
+
+
 # ---------------------------------------------------------------------------------------------
 def run_cases(ctx, exe, cases, tag):
     cin = ctx.path('run', tag + '-cases.ndjson')
@@ -332,6 +473,7 @@ def run(ctx):
     cases = tree_cases(ctx, docs)
     n_tree = len(cases)
     cases += attr_cases(ctx, attr_values(ctx))
+    cases += attr_rule_cases(ctx)
     n_attr = len(cases) - n_tree
     tests, skipped = repo_test_cases(ctx)
     cases += tests
